@@ -512,7 +512,7 @@ pub fn run_i8(c: &Case) -> Outcome {
 pub fn property() -> Property {
     Property {
         id: "C11",
-        rule: "random weighted multigraphs (1..=9 nodes quick) with weights from five ranges (mixed -6..12, mostly negative, all negative, non-negative control, slightly negative), plus a dedicated class of dense negative-weight DAGs with 6..=10 nodes; stored as Graph / StableGraph+MatrixGraph with vacancies / GraphMap / Csr; cost types i32,i64,f64 (spfa, floyd) and f64,f32 (bellman_ford); verdicts, distances, predecessor trees, prev matrices and returned cycles compared with an exact fixpoint Bellman-Ford over i64 from every source; non-trivial = a negative edge together with an unreachable node or a reachable negative cycle; distinct by case fingerprint",
+        rule: "random weighted multigraphs (1..=9 nodes quick) with weights from five ranges (mixed -6..12, mostly negative, all negative, non-negative control, slightly negative), plus a dedicated class of dense negative-weight DAGs with 6..=10 nodes; stored as Graph / StableGraph+MatrixGraph with vacancies / GraphMap / Csr; cost types i32,i64,f64 (spfa, floyd) and f64,f32 (bellman_ford); verdicts, distances, predecessor trees, prev matrices and returned cycles compared with an exact fixpoint Bellman-Ford over i64 from every source; non-trivial = a negative edge together with an unreachable node or a reachable negative cycle; sub-check i8-extremes: cost type i8 with weights over the whole range -128..=127 (positive weights scaled to sum <= 126 so that every finite estimate stays below max(), the unreachable marker), spfa and floyd_warshall judged whenever their true answers are representable (-128..=126 or a negative cycle), a failure re-run with i64 costs to tell bounded-arithmetic causes from general ones, non-trivial = at least two edges of magnitude >= 64; distinct by case fingerprint",
         assumptions: &["float costs are multiples of 0.25 below 2^10 in magnitude, so every sum is exact and equality needs no tolerance"],
         both_profiles: false,
         subs: vec![
